@@ -1,4 +1,4 @@
-CONSTANTS MaxConn = 6  Reqs = {1, 2, 3, 4, 5, 6}  Fix = TRUE
+CONSTANTS MaxConn = 6  Reqs = {1, 2, 3, 4, 5, 6}  Fix = TRUE  RedialFirst = @REDIAL_FIRST@
 SPECIFICATION TraceSpec
 INVARIANTS TypeOK NoWriteOnKnownDead HealthyNotMarkedClosed
 CONSTRAINT HighWater
